@@ -82,6 +82,55 @@ theorem delta_strictAntiOn {δp δn rate ref : ℝ} (hp : 0 < δp) (hn : 0 < δn
       simp only [ha, hb, if_false]
       exact mul_lt_mul_of_pos_left (logRatio_strictAnti hr h0 ht1 h12) hn
 
+/-! ## the object protocol (`get_reference` → `get_trial`* → `delta`) -/
+
+/-- the attribute `delta()` reads after `get_reference` is the value `get_reference` returned:
+    fresh or cached object, any stress, any number type -/
+theorem getReference_attr {α : Type} (mul : α → α → α) (o : FFB α) (size : α) :
+    (getReference mul o size).2.referenceSize = some (getReference mul o size).1 := by
+  unfold getReference
+  cases h : o.referenceSize with
+  | none => rfl
+  | some r => simp [h]
+
+theorem getReference_fresh {α : Type} (mul : α → α → α) (o : FFB α) (size : α)
+    (h : o.referenceSize = none) : (getReference mul o size).1 = mul size o.stress := by
+  unfold getReference; rw [h]
+
+/-- the cache: a second `get_reference` (any model, stress changed in between or not) returns the first
+    value and leaves the object alone -/
+theorem getReference_cached {α : Type} (mul : α → α → α) (o : FFB α) (s1 s2 σ : α) :
+    getReference mul { (getReference mul o s1).2 with stress := σ } s2 =
+      ((getReference mul o s1).1, { (getReference mul o s1).2 with stress := σ }) := by
+  have h := getReference_attr mul o s1
+  unfold getReference at h ⊢
+  cases h0 : o.referenceSize with
+  | none => simp
+  | some r => simp [h0]
+
+/-- `get_trial` on a list of models, one after the other -/
+def trials {α : Type} (o : FFB α) (ts : List α) : FFB α := ts.foldl (fun o t => (getTrial o t).2) o
+
+theorem trials_reference {α : Type} (ts : List α) : ∀ o : FFB α, (trials o ts).referenceSize = o.referenceSize := by
+  induction ts with
+  | nil => intro o; rfl
+  | cons t ts ih => intro o; unfold trials; simp only [List.foldl_cons]; exact (ih _).trans rfl
+
+theorem trials_last {α : Type} (o : FFB α) (ts : List α) (t : α) :
+    (trials o (ts ++ [t])).trialSize = some t := by
+  unfold trials
+  rw [List.foldl_append]
+  rfl
+
+/-- scoring through the API on ONE object: whatever trials were sized before, `delta()` after
+    `get_trial(model)` is the formula at (the value `get_reference` RETURNED, the size of that trial) -/
+theorem deltaObj_api {α : Type} (mul : α → α → α) (dl : α → α → α) (o : FFB α) (refSize : α)
+    (ts : List α) (t : α) :
+    deltaObj dl (trials (getReference mul o refSize).2 (ts ++ [t])) =
+      some (dl (getReference mul o refSize).1 t) := by
+  unfold deltaObj
+  rw [trials_reference, trials_last, getReference_attr]
+
 /-! ## size model -/
 
 /-- the tensors the property talks about: (elements, bits of the applied quantizer if any) -/
